@@ -54,7 +54,7 @@ func runHistory(t *rapid.T, persistent bool) {
 	w := lstore.NewWorld(t, cfg, nil, rapid.Uint64().Draw(t, "hashInit"))
 	defer w.Close()
 
-	var failedKeysRead, heldAcrossRotation, rotationsDuringSlicing, overlappedFM int
+	var failedKeysRead, heldAcrossRotation, rotationsDuringSlicing, overlappedFM, parkedFM int
 	failedObjs := map[*lstore.Obj]bool{}
 
 	newUpload := func() {
@@ -252,7 +252,26 @@ func runHistory(t *rapid.T, persistent bool) {
 					failedKeysRead++
 				}
 			}
-			w.FindMissing(items)
+			// A third of the existence checks run as a thread that parks
+			// before each refresh copy: other actions interleave with the
+			// unlocked copy phases of its second scan.
+			if rapid.IntRange(0, 2).Draw(t, "fmAsThread") == 0 {
+				c.Add("fmThread")
+				if p := w.StartFindMissing(items); p.Parks > 0 {
+					parkedFM++
+				}
+			} else {
+				w.FindMissing(items)
+			}
+		},
+		"fmStep": func(t *rapid.T) {
+			p := w.PendingFindMissing()
+			if p == nil {
+				fallback()
+				return
+			}
+			c.Add("fmStep")
+			w.StepFindMissing(p)
 		},
 		// A second client's FindMissing that overlaps with uploads: first
 		// scan, wait for the refresh lock (held by a slicing composite
@@ -308,6 +327,7 @@ func runHistory(t *rapid.T, persistent bool) {
 		w.FinishPut(u)
 	}
 	w.FinishHolds()
+	w.FinishPendingFM()
 	if persistent {
 		w.Drain()
 	}
@@ -326,6 +346,8 @@ func runHistory(t *rapid.T, persistent bool) {
 	c.ClassIf(heldAcrossRotation > 0, "read_held_across_rotation")
 	c.ClassIf(rotationsDuringSlicing > 0, "rotation_during_composite_slicing")
 	c.ClassIf(overlappedFM > 0, "findmissing_waited_for_refresh_lock_during_uploads")
+	c.ClassIf(parkedFM > 0, "findmissing_parked_in_refresh_copy")
+	c.ClassIf(w.Flags["findmissing_refresh_target_rotated_away"] > 0, "findmissing_refresh_target_rotated_away")
 	c.ClassIf(w.St.BL.PopFronts > 0, "rotated")
 	c.ClassIf(w.St.Alloc.NewBlockFailures > 0, "alloc_failures")
 	c.ClassIf(cfg.Hierarchical, "hierarchical")
